@@ -22,5 +22,16 @@ defs = {
     "gen_third": compute_third_mandelstam(s1, s2, m0, m1, m2, m3),
     "gen_within": is_within_phasespace(s1, s2, m0, m1, m2, m3, outside_value=o).doit(),
 }
+# literal arguments inserted BEFORE doit(): a vanishing argument (massless particle, sigma = 0) in each slot, and the
+# Kibble function / indicator with a massless particle in each position (value-inspecting branches would show here)
+Z = sp.Integer(0)
+defs.update({
+    "gen_kallen_x0": Kallen(Z, y, z).doit(), "gen_kallen_y0": Kallen(x, Z, z).doit(), "gen_kallen_z0": Kallen(x, y, Z).doit(),
+    "gen_kallen_xy0": Kallen(Z, Z, z).doit(), "gen_kallen_float0": Kallen(sp.Float(0), y, z).doit(),
+    "gen_kibble_m1_0": Kibble(s1, s2, s3, m0, Z, m2, m3).doit(),
+    "gen_kibble_m2_0": Kibble(s1, s2, s3, m0, m1, Z, m3).doit(),
+    "gen_kibble_m3_0": Kibble(s1, s2, s3, m0, m1, m2, Z).doit(),
+    "gen_kibble_s1_0": Kibble(Z, s2, s3, m0, m1, Z, Z).doit(),
+})
 write_gen(out, "bridge/symgen_C20.py", defs)
 print("ok", {k: len(str(v)) for k, v in defs.items()})
